@@ -36,9 +36,15 @@ THEOREMS = [
      'forall c : case, model_check c = true -> spec_check c = true'),
     ('c03_iaa_lawful',
      'lawful iaa_update iaa_push asize iaa_modify ax asm amod_act zsum iaa_pending'),
+    ('c03_ihash_lawful',
+     'lawful ihs_update ihs_push hsz ihs_modify hx ihs_agg Z.add hashagg ihs_pending'),
 ]
-RULE = ("every priority assignment {0..n-1}^n (ties included) for n <= 4 (quick) / 5 (thorough) on a build / root-modify / split / aggregate / modify / merge / observe history, plus random multi-treap op histories (1-45 ops, up to 6 live treaps, up to ~35 elements) over two item kinds (lazy add + sum; "
-        "assign-or-add + sum, non-commuting modifications); priorities injected through the public field: random 32-bit, "
+RULE = ("every priority assignment {0..n-1}^n (ties included) for n <= 4 (quick) / 5 (thorough) on a build / root-modify / split / aggregate / modify / merge / observe history, plus random multi-treap op histories (1-45 ops, up to 6 live treaps, up to ~35 elements) over three item kinds (lazy add + sum; "
+        "assign-or-add + sum, non-commuting modifications; lazy add + positional hash mod 65521, an ORDER-SENSITIVE "
+        "aggregate that exposes exchanged children: its histories read the root aggregate after about half of the structural "
+        "operations, of every split-out middle and of every final treap, start from a pre-built treap of up to 14 elements, "
+        "and have their own exhaustive family over every priority assignment: whole / split halves / middle range / "
+        "after remove / after insert aggregates); priorities injected through the public field: random 32-bit, "
         "tiny range (ties), all equal, increasing, decreasing, or the generator's own draws (real insert_at, stream predicted "
         "by the plugin); histories are biased to the split-modify-merge pattern (range modify / range aggregate), sorted-set "
         "insertion through split_by, boundary positions 0/len/len+1; non-trivial = a root modification on a treap with >= 2 "
@@ -46,7 +52,7 @@ RULE = ("every priority assignment {0..n-1}^n (ties included) for n <= 4 (quick)
 TRUSTED = ["executor harness/crates/c03 (drives rlib_treap::{Treap,TreapNode} through the public API; overwrites the public "
            "priority field of new nodes; prints outputs, raw shapes and final collects)",
            "checks/c03.py (history generator, Coq term printer, prediction of the thread-local generator's draws for native cases)"]
-ASSUMPTIONS = ["items are the two harness items (i64, values small enough never to overflow) — the theorems are generic over any lawful item",
+ASSUMPTIONS = ["items are the harness items (i64, values small enough never to overflow; the positional-hash item of C03 kind 2 reduces mod 65521, every product < 2^40) — the theorems are generic over any lawful item",
                "Box ownership / Option<Box<..>> modelled as a functional tree; usize positions as Z (no operation can overflow)",
                "with injected priorities insert_at is replayed through the public API as split_at + from_item + merge + merge (its body); "
                "the real insert_at runs in the native-priority cases"]
@@ -122,7 +128,10 @@ def monotone(xs, c):
 PRIO_MODES = ["random", "random", "tiny", "equal", "inc", "dec", "native", "native"]
 
 
-def gen_history(rng, nops, kind, mode, maxel=35):
+def gen_history(rng, nops, kind, mode, maxel=35, prebuild=0):
+    """kinds 0/1: unchanged stream of choices.  kind 2 (positional hash, order-sensitive aggregate): the same op mix,
+    but a root aggregate is read after about half of the structural operations and of every final treap, and the
+    history may start from a pre-built treap of `prebuild` elements (subtree roots with two children from the start)."""
     L, ops = [], []
     counter = [0]
 
@@ -143,6 +152,16 @@ def gen_history(rng, nops, kind, mode, maxel=35):
     def emit(op):
         ops.append(op)
         py_step(L, op)
+        if kind == 2 and op[0] in "MABIRU" and L and rng.chance(1, 2):
+            # results of merge/split are at the end of the list; insert/remove/modify act in place
+            if op[0] in "IRU":
+                t = op[1]
+            elif op[0] == "M":
+                t = len(L) - 1
+            else:
+                t = len(L) - 1 - rng.below(2)
+            if 0 <= t < len(L):
+                ops.append(["G", t])
 
     def pos(n):
         r = rng.below(8)
@@ -162,6 +181,12 @@ def gen_history(rng, nops, kind, mode, maxel=35):
 
     def total():
         return sum(len(x) for x in L)
+
+    if prebuild:
+        emit(["F", rng.range(-50, 50), prio()])
+        for _ in range(prebuild - 1):
+            emit(["I", 0, rng.below(len(L[0]) + 1), rng.range(-50, 50), prio()])
+    nops += len(ops)
 
     while len(ops) < nops:
         n = len(L)
@@ -242,6 +267,10 @@ def gen_history(rng, nops, kind, mode, maxel=35):
             emit(["G", i])
     # final observations of everything
     for i in range(len(L)):
+        if kind == 2:
+            ops.append(["G", i])
+            ops.append(["C", i])
+            continue
         k = rng.below(4)
         if k == 0:
             ops.append(["C", i])
@@ -270,6 +299,36 @@ def exhaustive_small(nmax):
     return cases
 
 
+HASH_VALUES = [3, 14, -15, 92, 65, -35]
+
+
+def exhaustive_hash(nmax):
+    """kind 2 (order-sensitive aggregate): every priority assignment {0..n-1}^n (ties included) for n <= nmax.
+    Build by appends (pairwise different values), then read the root aggregate of: the whole treap, the whole treap
+    under a pending modification, both halves of a split, the merge of the halves after one was modified, a split-out
+    middle range (modified) and the re-merged whole, the treap after a remove_at and after an insert_at."""
+    import itertools
+    cases, idx = [], 0
+    for n in range(1, nmax + 1):
+        for f in itertools.product(range(n), repeat=n):
+            idx += 1
+            ops = [["F", HASH_VALUES[0], f[0]]]
+            for i in range(1, n):
+                ops.append(["I", 0, i, HASH_VALUES[i], f[i]])
+            ops += [["G", 0], ["U", 0, "a", 7, 2], ["G", 0]]
+            k = idx % (n + 1)
+            ops += [["A", 0, k], ["G", 0], ["G", 1], ["U", 1, "a", 3, 2], ["M", 0, 1], ["G", 0], ["C", 0], ["S", 0]]
+            # middle range [l, r]: split off t3, then t1 | t2; live treaps become [t3, t1, t2]
+            l_ = (idx // 2) % n
+            r_ = l_ + (idx // 3) % (n - l_)
+            ops += [["A", 0, r_ + 1], ["A", 0, l_], ["G", 2], ["U", 2, "a", -4, 2], ["G", 2],
+                    ["M", 1, 2], ["G", 1], ["M", 1, 0], ["G", 0], ["C", 0]]
+            ops += [["R", 0, idx % n], ["G", 0],
+                    ["I", 0, (idx // 5) % (n + 1), HASH_VALUES[5], f[idx % n]], ["G", 0], ["f", 0], ["l", 0], ["C", 0]]
+            cases.append({"kind": 2, "native": False, "mode": "exhaustive", "ops": ops})
+    return cases
+
+
 def generate(rng, tier):
     cases = exhaustive_small(4 if tier == "quick" else 5)
     n = 1400 if tier == "quick" else 30000
@@ -283,6 +342,16 @@ def generate(rng, tier):
             nops = rng.choice([3, 8, 15, 25, 45, 80])
             maxel = 60
         cases.append(gen_history(rng, nops, kind, mode, maxel))
+    # kind 2: the order-sensitive aggregate (own stream of choices: the cases above do not depend on these)
+    cases += exhaustive_hash(4 if tier == "quick" else 5)
+    hr = rng.fork("c03-hash")
+    for t in range(260 if tier == "quick" else 8000):
+        mode = PRIO_MODES[hr.below(len(PRIO_MODES))]
+        if tier == "quick":
+            nops, maxel = hr.choice([6, 12, 20, 30, 45]), 35
+        else:
+            nops, maxel = hr.choice([6, 12, 25, 45, 80]), 60
+        cases.append(gen_history(hr, nops, 2, mode, maxel, prebuild=hr.choice([0, 0, 4, 8, 14])))
     return cases
 
 
@@ -437,7 +506,8 @@ MANIFEST = {
             "k-th element; out of range = panic, sequence unchanged), c03_first_last_collect_size (+ root aggregate = fold of exactly that "
             "subsequence), c03_modify_root (a root modification reaches exactly that treap's elements, once, in attachment order), "
             "c03_history (outputs of any history = outputs of the list-of-lists specification, for every priority stream), lawfulness of "
-            "the ItemSized-like item and of an assign-vs-add item, c03_model_check_spec_check (agreement with the model implies the "
+            "the ItemSized-like item (c03_isz_lawful), of an assign-vs-add item (c03_iaa_lawful) and of a positional-hash item whose "
+            "aggregate is order-sensitive (c03_ihash_lawful: exchanged children change it), c03_model_check_spec_check (agreement with the model implies the "
             "specification on every correspondence case). The model is tied to the code on every run: histories are run on the real Treap "
             "with injected (public priority field) or native priorities and Coq proves model = implementation and implementation |= list "
             "specification for every case.",
